@@ -4,7 +4,7 @@ Refuting events: two expansions of one abbreviation under different formatting o
 tag / attribute / text streams differ; comments that change anything but comment text; a
 self-closing style that changes more than the ` /` or `/` before `>`; a line whose leading
 whitespace is not baseIndent + indent x (elements open at that point)."""
-from .. import core, gen_abbr, hostile, outparse, probes
+from .. import core, gen_abbr, hostile, outparse, probes, stretch
 
 ID = 'C12'
 RULE = ('cases = (abbreviation, syntax, formatting option set): generated abbreviations (elements, groups, climbs, repeaters, ids/classes/attributes, single- and '
@@ -251,6 +251,16 @@ def run_shard(desc, ctx):
     pr = probes.Probes().add('emmet.markup.format.html:should_format').add('emmet.markup.format.html:get_indent') \
         .add('emmet.output_stream:OutputStream.push_newline').add('emmet.markup.format.comment:output').add('emmet.markup.addon.xsl:xsl').install()
     try:
+        import emmet as _em
+        from emmet.scanner import ScannerException as _SE
+        from emmet.token_scanner import TokenScannerException as _TE
+        # near misses (vmon/stretch.py): text the formatter looks at with a pattern - it only has to come back
+        for ab in stretch.near_miss_inputs(rng, ['p{<%s}', 'li{<%s/>}*2', 'ul>li{<%s}+li', 'p{%s}', '{<%s}', 'div>p{<%s}>b', 'a[title="<%s"]'], 14):
+            cfgn = {'syntax': rng.choice(['html', 'xml', 'jsx', 'vue', 'xsl']), 'options': {'output.format': rng.random() < 0.7, 'comment.enabled': rng.random() < 0.2}}
+            stretch.must_return(ctx, _em.expand, (ab, cfgn), {'near_miss': True, 'abbr': ab, 'config': cfgn, '_allowed': (_SE, _TE)})
+        for line in stretch.near_miss_inputs(rng, stretch.WRAP_RUN_LINES, 8):
+            cfgn = {'syntax': rng.choice(['html', 'xml', 'jsx', 'vue', 'xsl']), 'text': [line, 'two']}
+            stretch.must_return(ctx, _em.expand, (rng.choice(['ul>li*', 'p', 'div>p*>b']), cfgn), {'near_miss': True, 'wrap_line': line, 'config': cfgn, '_allowed': (_SE, _TE)})
         for i in range(desc['n']):
             d2 = (i % 10 == 9)
             flags = {}
